@@ -986,7 +986,31 @@ def _touches_stale_name(path, hist):
     return False
 
 
+COALESCE_CLASS = ("two renames onto the same name without a drain in between: inotify coalesces the second IN_MOVED_TO into the "
+                  "first (its event comparison ignores the cookie), the library never learns about the replacement")
+
+
+def _same_dest_twice(path, hist):
+    """Is `path` the destination of two consecutive arrivals (rename / move in) with no drain in between?"""
+    last = None
+    for op, pace in hist:
+        dest = op[2] if op[0] in ("rename", "move_back") else (op[1] if op[0] in ("move_in_dir",) else None)
+        if dest is not None and dest == path and last == path:
+            return True
+        if dest is not None:
+            last = dest
+        elif op[0] not in ("chmod",):
+            # any other notification on that parent would separate the two MOVED_TO records; stay conservative
+            # and only treat directly adjacent arrivals as coalescible
+            last = None
+        if pace in ("drain", "drain-soft"):
+            last = None
+    return False
+
+
 def classify_dir(path, hist):
+    if _same_dest_twice(path, hist):
+        return COALESCE_CLASS
     if any(op[0] == "move_out" for op, _ in hist) and _touches_stale_name(path, hist):
         return STALE_CLASS
     origin, undrained, chain = provenance(path, hist)
